@@ -14,6 +14,12 @@ import (
 
 // stubOutcome forks over ok / fail and logs the outcome.
 func (i *interpreter) stubOutcome(name string) bool {
+	if i.path.realLibs["no-faults"] {
+		// symxRealLibrary("no-faults"): the environment does not fail on this path (a harness that is replayed
+		// natively, where failures cannot be injected)
+		i.envst.log = append(i.envst.log, "stub:"+name+"=ok")
+		return true
+	}
 	n := len(i.envst.log)
 	key := fmt.Sprintf("stub.%s#%d", name, n)
 	var k int
